@@ -205,3 +205,22 @@ package environment
 //@   ghostvar armed bool = false
 //@   on call time.AfterFunc : assert wfState == sm.ERROR && !armed ; armed = true
 //@   on store var.wfState : assert !armed
+
+// ---------------------------------------------------------------------------------------------------------
+// C04: a detector is part of at most one active environment: the new environment is registered only after every
+// detector it needs was found absent from the set of detectors active in the other environments.
+//@ func (envs *Manager) GetActiveDetectors() (response system.IDMap)
+//@   noverify
+//@   modifies nothing
+//@   ensures response == nil || fresh(response)
+//@ func (env *Environment) GetActiveDetectors() (response system.IDMap)
+//@   noverify
+//@   modifies nothing
+//@   ensures response == nil || fresh(response)
+
+//@ func (envs *Manager) CreateEnvironment(workflowPath string, userVars map[string]string, public bool, newId uid.ID, autoTransition bool) (resultEnvId uid.ID, resultErr error)
+//@   property C04 C06
+//@   ghostvar registered bool = false
+//@   on mapupdate environment.Manager.m : assert !registered && (forall d system.ID :: (d in neededDetectors) ==> !(d in alreadyActiveDetectors)) ; registered = true
+//@   loop 4 invariant forall d system.ID :: #visited[d] ==> !(d in alreadyActiveDetectors)
+//@   loop 4 invariant !registered
